@@ -53,7 +53,7 @@ class Ctx:
         self.exhaustive = True
         self.notes = []
         self.extra = {}
-        self.findings = [f for f in load_findings() if f.get("property") == pid]
+        self.findings = [f for f in load_findings() if f.get("property") == pid or pid in f.get("also", [])]
         self.quick = tier == "quick"
 
     # ------------------------------------------------------------------ model checking
